@@ -313,8 +313,16 @@ Definition fetch_data (quic : bool) (ex : exporter) (st : kdata) (p : peer) : kd
     (set_cookies st rest, {| fo_err := 0; fo_data := st; fo_exchanged := false |})
   end.
 
+(* MaxStoredCookies: the number of unused cookies a Fetcher keeps at most *)
+Definition max_stored_cookies := 8.
+
+(* StoreCookie: a cookie that is too long, or one that arrives while MaxStoredCookies cookies are
+   cached already, is dropped.  (FetchData installs whatever the exchange returned: the cap is not
+   applied to the cookies of a key-exchange message.) *)
 Definition store_cookie (st : kdata) (c : bytes) : kdata :=
-  if cookie_too_long c then st else set_cookies st (k_cookies st ++ [c]).
+  if cookie_too_long c then st
+  else if max_stored_cookies <=? Z.of_nat (length (k_cookies st)) then st
+  else set_cookies st (k_cookies st ++ [c]).
 
 (* ---------- the message of the project's own key-exchange server ----------
    newNTSKEMsg: next protocol 0, algorithm 15, server = local IP (text), port, eight cookies
